@@ -1,5 +1,6 @@
 """C10 -- requested layout normal forms: structural preconditions only."""
 import ast
+from .. import rx
 import re
 
 from .. import miniev as ME
@@ -50,6 +51,7 @@ def run(ctx):
     RF.check_plan_invariants(ctx, 'R10.2')
     check_operators(ctx)
     check_stripws(ctx)
+    check_stripws_simulation(ctx)
     # the serializer right-strips exactly the lines outside quoted text: its idea of a quoted region must agree with the lexer's
     check_serializer(ctx, 'R10.4', [r for r in SERIALIZER_REGIONS if r[0].startswith(('single-quoted', 'double-quoted'))])
     from .. import rules_base as RB
@@ -121,6 +123,23 @@ def check_split_table(ctx, V):
         ok = not missed and types == {KW} and not broken
         ctx.ob('R10.1', f'clause:{w}', loc, f'clause keyword {w!r} is a Keyword token selected by the reindent split lookup in every spelling {spellings[:3]}...', ok,
                f'spellings not selected: {missed}; lexer types {types}: the keyword does not start its own line')
+    # the same words directly in front of "(" (`where(a=1)`, `and(b=2 or c=3)`, `join(select ...)` are ordinary SQL): the lexer must
+    # still hand them out as keywords, or reindent never sees a clause keyword there
+    retyped = {}
+    for w in words + ['WHERE']:
+        if ' ' in w and not w.endswith('JOIN'):
+            continue
+        for sp in (w, w.lower()):
+            r, end, tt = V.T.lex_one(sp + '(x)', 0)
+            if not (end == len(sp) and isinstance(tt, TT) and KW.contains(tt)):
+                retyped.setdefault(r.pattern if r is not None else '?', []).append(sp)
+    if not retyped:
+        ctx.ob('R10.1', 'context:open parenthesis', V.T.kwmod.relpath, 'every clause keyword keeps its keyword type directly in front of "("', True)
+    for pat, sps in sorted(retyped.items()):
+        line = next((x.line for x in V.T.lex if x.pattern == pat), 0)
+        ctx.ob('R10.1', f'context:open parenthesis:rule={rx.canon_pattern(pat)}', f'{V.T.kwmod.relpath}:{line}', 'no rule re-types a clause keyword that is directly followed by "("', False,
+               f'rule {pat!r} re-types {len(sps)} spellings, e.g. {sps[:6]}: `select a from t where(x=1) and(y=2)` is reindented without a line break '
+               f'before where / and')
     # WHERE handler
     wh = c.methods.get('_process_where')
     ok = wh is not None and any(isinstance(n, ast.Call) and isinstance(n.func, ast.Attribute) and n.func.attr == 'insert_before'
@@ -250,9 +269,11 @@ def check_stripws(ctx):
             okp, why = RF.ws_proved(ctx, p, n, None, (src(n.func.value), src(n.args[0])), gd)
             in_loop = any(isinstance(l, ast.While) for l in gd.loops.get(id(gd.stmt_of.get(id(n))), ()))
             pops[src(n.args[0])] = okp and in_loop
-    ok = pops.get('1') and pops.get('-2') and any(isinstance(n, ast.Call) and is_attr(n.func, '_stripws_default', 'self') for n in own_nodes(p.node))
+    # which positions are emptied (behind "(", in front of ")" wherever the closing parenthesis is) is decided on trees by R10.9;
+    # structurally only: whitespace is removed behind "(" in a loop and the default rule runs afterwards
+    ok = pops.get('1') and any(isinstance(n, ast.Call) and is_attr(n.func, '_stripws_default', 'self') for n in own_nodes(p.node))
     ctx.ob('R10.5', '_stripws_parenthesis', f'{p.mod.relpath}:{p.node.lineno}',
-           'whitespace after "(" (index 1) and before ")" (index -2) is removed repeatedly, then the default rule runs', bool(ok), f'guarded pops {pops}')
+           'whitespace after "(" (index 1) is removed repeatedly, then the default rule runs (positions in front of ")": R10.9)', bool(ok), f'guarded pops {pops}')
     pr = c.methods['process']
     gd = Guards(pr.node)
     okp = False
@@ -269,3 +290,133 @@ def check_stripws(ctx):
     f = ctx.repo.func('sqlparse.filters.others.SerializerUnicode.process')
     ok = 'line.rstrip()' in src(f.node)
     ctx.ob('R10.4', 'serializer:rstrip', f'{f.mod.relpath}:{f.node.lineno}', 'every output line is right-stripped', ok, 'lines can end in a blank')
+
+
+# ---------------------------------------------------------------------------
+# R10.9: StripWhitespaceFilter.process interpreted on small trees
+
+def _sw_shapes():
+    import itertools
+    shapes = []
+    seqs = [list(p) for n_ in range(1, 5) for p in itertools.product('wnx', repeat=n_) if 'xx' not in ''.join(p)]
+    for sq in seqs:
+        shapes.append(('statement', sq))
+    inner = [sq for sq in seqs if len(sq) <= 3 and 'x' in sq]
+    for sq in inner:
+        for pre in ([], ['w']):
+            for post in ([], ['w'], ['n']):
+                shapes.append(('nested group', ['x'] + pre + [('T', sq)] + post + ['x']))
+        shapes.append(('parenthesis', ['x', 'w', ('P', ['('] + sq + [')']), 'w', 'x']))
+        shapes.append(('parenthesis followed by a comment', ['x', 'w', ('P', ['('] + sq + [')', 'w', ('G', ['c'])]), 'w', 'x']))
+        shapes.append(('parenthesis with a comment inside', ['x', 'w', ('P', ['(', ('G', ['c']), 'w'] + sq + [')']), 'w', 'x']))
+    for cm in (['c'], ['c', 'n'], ['c', 'n', 'c']):
+        shapes.append(('comment inside a group', ['x', 'w', ('T', ['x', 'w', ('G', cm)]), 'w', 'x']))
+        shapes.append(('comment inside a group', ['x', 'w', ('T', ['x', 'w', ('G', cm)]), 'n', 'x']))
+        shapes.append(('comment', ['x', 'w', ('G', cm), 'w', 'x']))
+        shapes.append(('comment', ['x', 'w', ('G', cm), 'n', 'w', 'x']))
+    for a in ([], ['w']):
+        for b in ([], ['w'], ['n']):
+            shapes.append(('identifier list', ['x', 'w', ('L', [('T', ['x'])] + a + [','] + b + [('T', ['x'])]), 'w', 'x']))
+    return shapes
+
+
+def check_stripws_simulation(ctx):
+    """strip_whitespace decided on concrete small trees: the source of StripWhitespaceFilter.process (with its getattr dispatch
+    and every helper) is interpreted; afterwards the text of the statement has no leading or trailing whitespace, no two
+    whitespace characters in a row outside comments, no blank behind "(" or in front of ")" unless a comment is the neighbour
+    on the other side, and every other token is still there."""
+    repo = ctx.repo
+    ctx.rule('R10.9', 'StripWhitespaceFilter.process interpreted on small token trees: edges stripped, runs collapsed across group borders, parentheses tight', floor=1)
+    c = RF.filter_class(ctx, 'StripWhitespaceFilter')
+    f = c.methods['process']
+    loc = f'{f.mod.relpath}:{f.node.lineno}'
+    CM, WSP, NL, NAME, PUN = TT(('Comment', 'Multiline')), TT(('Text', 'Whitespace')), TT(('Text', 'Whitespace', 'Newline')), TT(('Name',)), TT(('Punctuation',))
+    COMMENT = TT(('Comment',))
+    classes = {k: repo.classes.get(f'sqlparse.sql.{v}') for k, v in (('G', 'Comment'), ('T', 'Identifier'), ('S', 'Statement'), ('P', 'Parenthesis'), ('L', 'IdentifierList'))}
+    ctx.need(all(classes.values()), 'sqlparse.sql classes not found')
+    mk = {'c': (CM, '/*c*/'), 'w': (WSP, '  '), 'n': (NL, '\n'), 'x': (NAME, 'x'), '(': (PUN, '('), ')': (PUN, ')'), ',': (PUN, ',')}
+
+    def build(shape):
+        out = []
+        for s_ in shape:
+            if isinstance(s_, str):
+                t_ = ME.AbsToken(repo, ttype=mk[s_][0], value=mk[s_][1])
+                t_.parent = None
+                out.append(t_)
+            else:
+                out.append(group(classes[s_[0]], build(s_[1])))
+        return out
+
+    def group(cls, kids):
+        g = ME.AbsToken(repo, cls=cls)
+        g.tokens, g.parent, g.is_whitespace = kids, None, False
+        g.value = ''.join(k.value for k in kids)
+        for k in kids:
+            k.parent = g
+        return g
+
+    def leaves(t):
+        if t.is_group:
+            for k in t.tokens:
+                yield from leaves(k)
+        else:
+            yield t
+
+    def show(shape):
+        return ''.join(s_ if isinstance(s_, str) else f'{s_[0]}[{show(s_[1])}]' for s_ in shape)
+    params = [p_ for p_ in f.params if p_ not in ('self', 'cls')]
+    bad, n = {}, 0
+    for where, shape in _sw_shapes():
+        st = group(classes['S'], build(shape))
+        before = [t for t in leaves(st) if not WSP.contains(t.ttype)]
+        ev = ME.Evaluator(ctx, f.mod, c)
+        ev.effects = True
+        env = {f.params[0]: ME.Obj(_cls=c), params[0]: st}
+        for p_, d_ in zip(f.params[len(f.params) - len(f.node.args.defaults):], f.node.args.defaults):
+            env[p_] = ev.ev(d_, {})
+        try:
+            ME.run_function(ev, f.node, env, max_steps=2000)
+        except (ME.Unsupported, ME.Unknown) as e:
+            ctx.ob('R10.9', 'simulation', loc, 'strip_whitespace is evaluable on small trees', None, f'{show(shape)}: {e}')
+            return
+        except ME.Crash as e:
+            bad.setdefault('crash', []).append(f'{show(shape)} ({where}): {e}')
+            continue
+        n += 1
+        after = list(leaves(st))
+        sig = [t for t in after if not WSP.contains(t.ttype)]
+        text = ''.join(t.value for t in after)
+        why = None
+        if len(sig) != len(before) or any(a is not b for a, b in zip(sig, before)):
+            why = 'a significant token is lost'
+        elif text != text.strip():
+            why = 'leading or trailing whitespace is left'
+        else:
+            ws_run = 0
+            prev_sig = None
+            for i, t in enumerate(after):
+                if WSP.contains(t.ttype):
+                    ws_run += len(t.value)
+                    if ws_run > 1:
+                        why = 'a run of two whitespace characters is left'
+                        break
+                    if t.value:
+                        nxt = next((u for u in after[i + 1:] if not (WSP.contains(u.ttype) and not u.value)), None)
+                        if prev_sig is not None and prev_sig.value == '(' and not (nxt is not None and COMMENT.contains(nxt.ttype)):
+                            why = 'a blank is left behind "("'
+                            break
+                        if nxt is not None and nxt.value == ')' and not (prev_sig is not None and COMMENT.contains(prev_sig.ttype)):
+                            why = 'a blank is left in front of ")"'
+                            break
+                else:
+                    ws_run = 0
+                    prev_sig = t
+        if why:
+            bad.setdefault(why, []).append(f'{show(shape)} ({where}) -> {text!r}')
+    ctx.info['strip_whitespace_simulated_trees'] = n
+    ctx.need(n >= 250, f'strip_whitespace simulation ran on {n} trees only')
+    if not bad:
+        ctx.ob('R10.9', 'simulation', loc, f'{n} trees (flat statements, nested groups with whitespace at their borders, parentheses, comment groups, identifier lists): normal form reached', True)
+    for why, items in sorted(bad.items()):
+        ctx.ob('R10.9', f'simulation:{why}', loc, f'strip_whitespace reaches its normal form on every one of {n} small trees (w blanks, n line break, x name, c comment; '
+               'T nested group, P parenthesis, G comment group, L identifier list)', False, f'{len(items)} tree(s): {why}, e.g. {items[:3]}')
